@@ -14,6 +14,9 @@ import common as C
 BACK = os.path.join(C.SPEC, "back")
 
 
+CTOR = "<ctor>"
+
+
 def sig(k):
     return "(" + ", ".join(["int"] * k) + ")"
 
@@ -45,6 +48,17 @@ def run(res, tier):
     cases = [c for c in C.tlc_prints(r["out"], "OVL") if "raw" not in c and c["decls"]]
     if len(cases) < 300:
         raise C.ToolError("Overloads printed %d states" % len(cases))
+    # constructors (wrapper `new`, extern named after the class) next to methods literally called `new1` / `Chan1`
+    r4 = C.tlc(os.path.join(BACK, "Overloads.tla"), cfg="MC_Overloads_ctors.cfg", workers=4, timeout=900, name="c01-ovl-ctors")
+    if not C.tlc_ok(r4):
+        raise C.ToolError("Overloads (constructors) model failed: " + r4["out"][-1200:])
+    r5 = C.tlc(os.path.join(BACK, "Overloads.tla"), cfg="MC_Overloads_x_ctorCounter.cfg", workers=2, timeout=300, name="c01-ovl-sens3")
+    if "Invariant UniqueMethods is violated" not in r5["out"]:
+        raise C.ToolError("sensitivity config MC_Overloads_x_ctorCounter did not fail")
+    ctor_cases = [c for c in C.tlc_prints(r4["out"], "OVL") if "raw" not in c and CTOR in c["decls"]]
+    if len(ctor_cases) < 200:
+        raise C.ToolError("Overloads (constructors) printed %d states" % len(ctor_cases))
+    cases += ctor_cases
     w = C.workdir("c01-ovl")
 
     def bindgen(hp):
@@ -56,18 +70,22 @@ def run(res, tier):
         k, c = k_c
         d = c["decls"]
         cls = os.path.join(w, "m%05d.hpp" % k)
+        members = [("  Chan%s;\n" if b == CTOR else "  void " + b + "%s;\n") % sig(i) for i, b in enumerate(d)]
+        if k % 2:
+            # the code walks methods first, constructors afterwards, wherever they stand in the class
+            members = [m for m in members if m.startswith("  Chan(")] + [m for m in members if not m.startswith("  Chan(")]
         with open(cls, "w") as f:
-            f.write("struct Chan {\n" + "".join("  void %s%s;\n" % (b, sig(i)) for i, b in enumerate(d)) + "};\n")
+            f.write("struct Chan {\n" + "".join(members) + "};\n")
         fre = os.path.join(w, "f%05d.hpp" % k)
         with open(fre, "w") as f:
-            f.write("".join("void %s%s;\n" % (b, sig(i)) for i, b in enumerate(d)))
+            f.write("".join("void %s%s;\n" % (b, sig(i)) for i, b in enumerate(d) if b != CTOR))
         out = []
         try:
             rc, so, se = bindgen(cls)
             if rc != 0:
                 out.append(("method", "generation-failed", se[-300:], None))
             else:
-                judge("method", names(r"pub\s+unsafe\s+fn\s+(\w+)\s*\(\s*&\s*mut\s+self", so), c["methods"], out)
+                judge("method", names(r"pub\s+unsafe\s+fn\s+(\w+)\s*\(", so), c["methods"], out)
                 judge("method-extern", names(r"pub\s+fn\s+(\w+)\s*\(\s*this\s*:", so), ["Chan_" + x for x in c["externs"]], out)
             rc, so, se = bindgen(fre)
             if rc != 0:
